@@ -54,6 +54,27 @@ func ZZ_C11_det(a []int) {
 	zzEmitU("len", uint64(len(w1.b)))
 }
 
+// ZZ_C11_proc: the same packet encoded in two processes: package-level
+// variables are initialised again under another map iteration order and the
+// packet is rebuilt from the same values. a = shape.
+func ZZ_C11_proc(a []int) {
+	abs := zzGen(zzShapeOf(a))
+	var w1 zzSink
+	zzBuild(abs).WriteTo(&w1)
+	for _, mode := range []string{"rev", "rot1"} {
+		zzNewProcess(mode)
+		var w2 zzSink
+		zzBuild(abs).WriteTo(&w2)
+		if len(w1.b) != len(w2.b) {
+			zzAssert(false, "two processes encode the same packet differently (length)")
+		} else {
+			zzAssert(zzBytesEq(w1.b, w2.b), "two processes encode the same packet differently")
+		}
+	}
+	zzReach("proc")
+	zzEmitB("frame", w1.b)
+}
+
 // ZZ_C11_native is the native demonstration for order-dependent violations:
 // the Go runtime randomises map iteration, so the same packet is encoded
 // many times until two encodings differ.
